@@ -1834,6 +1834,12 @@ def replace_for_loops_with_set_list_comp(source: str) -> str:
             yield n2, None, transaction
 
         elif core.match_template(body_node, augass_template):
+            if isinstance(value, (ast.JoinedStr, ast.Tuple, ast.Set, ast.Dict)) or (
+                isinstance(value, ast.Constant)
+                and not isinstance(value.value, (int, float, complex))
+            ):
+                continue  # sum() adds numbers, it does not join strings: out = ""; out += str(x)
+
             if isinstance(value, ast.List):
                 replacement = ast.ListComp(elt=body_node.value, generators=generators)
             else:
